@@ -256,8 +256,9 @@ def run_impl_parallel(fn_module: str, fn_name: str, cases: list, procs: int | No
             if out[i] is None:
                 out[i] = {"__worker_lost__": f"no result within {timeout:.0f}s"}
     finally:
+        procs_ = list((getattr(ex, "_processes", None) or {}).values())
         ex.shutdown(wait=False, cancel_futures=True)
-        for p in list(getattr(ex, "_processes", {}).values()):
+        for p in procs_:
             try:
                 p.kill()
             except Exception:  # noqa: BLE001
